@@ -93,6 +93,8 @@ func genStrategy(ch chooser, n, t, self int, L int64) ByzStrategy {
 	s.LateDeal = ch.Pick("lateDeal", 6, 1) == 1
 	s.LateAcc = ch.Pick("lateAcc", 3, 1) == 1
 	s.LateApo = ch.Pick("lateApo", 3, 1) == 1
+	s.EarlyAcc = !s.LateAcc && ch.Pick("earlyAcc", 4, 1) == 1
+	s.EarlyApo = !s.LateApo && ch.Pick("earlyApo", 4, 1) == 1
 	uniform := make([]int, L)
 	for i := range uniform {
 		uniform[i] = 1
@@ -200,7 +202,7 @@ func genScenario(ch chooser) Scenario {
 	return sc
 }
 
-const c07Rule = "case = (n in 3..5, t in 1..n, phase length L in {6,8,10} blocks, keyper-set order, check-in fork on/off, Byzantine subset of size <= n-t each with a strategy commitment{correct,none,wrong degree,duplicate,points at infinity} x eval per receiver{correct,wrong,none} x accusation{none,false against a drawn set} x apology{correct,wrong,none} x timing per message class{offset inside the phase, first block after the phase}, and a block schedule for 3L+ blocks: order of the honest keypers' sync+send steps per block, per-step send budget {unlimited,1,2}, extra steps, position of the Byzantine transactions inside the block; 1/4 of the runs are unfair: an honest keyper takes no step for 1..L blocks); honest keypers run smobserver.SyncAppWithDB + KeyperCore.handleOnChainChanges + fx.SendShutterMessages on their own pgfake database against the real ShutterApp behind faketm. Non-trivial = the chain carries >=1 accusation made in the accusing phase, or a Byzantine DKG message accepted outside its phase or answered 'seen' (duplicate), or a wrong-degree commitment. Distinct = hash of scenario + schedule."
+const c07Rule = "case = (n in 3..5, t in 1..n, phase length L in {6,8,10} blocks, keyper-set order, check-in fork on/off, Byzantine subset of size <= n-t each with a strategy commitment{correct,none,wrong degree,duplicate,points at infinity} x eval per receiver{correct,wrong,none} x accusation{none,false against a drawn set} x apology{correct,wrong,none} x timing per message class{offset inside the phase, first block after the phase; accusations and apologies also 1-3 blocks before their phase}, and a block schedule for 3L+ blocks: order of the honest keypers' sync+send steps per block, per-step send budget {unlimited,1,2}, extra steps, position of the Byzantine transactions inside the block; 1/4 of the runs are unfair: an honest keyper takes no step for 1..L blocks); honest keypers run smobserver.SyncAppWithDB + KeyperCore.handleOnChainChanges + fx.SendShutterMessages on their own pgfake database against the real ShutterApp behind faketm. Non-trivial = the chain carries >=1 accusation made in the accusing phase, or a Byzantine DKG message accepted outside its phase or answered 'seen' (duplicate), or a wrong-degree commitment. Distinct = hash of scenario + schedule."
 
 func c07Labels(sc Scenario, st agreeStats, ref *refRecord, r *Run) (labels []string, nontrivial bool) {
 	labels = append(labels, fmt.Sprintf("n=%d", sc.N), fmt.Sprintf("t=%d", sc.T), fmt.Sprintf("L=%d", sc.L), fmt.Sprintf("byz=%d", len(sc.Byz)))
@@ -243,6 +245,12 @@ func c07Labels(sc Scenario, st agreeStats, ref *refRecord, r *Run) (labels []str
 		}
 		if s.LateApo && s.Apology != apNone {
 			add("byz-timing:apology-late")
+		}
+		if s.EarlyAcc && len(s.Accuse) > 0 {
+			add("byz-timing:accusation-early")
+		}
+		if s.EarlyApo && s.Apology != apNone {
+			add("byz-timing:apology-early")
 		}
 	}
 	honestAccuses, byzAccusesHonest := false, false
@@ -392,9 +400,9 @@ func TestC07_Agreement(t *testing.T) {
 
 // exhaustive strategy alphabet for n=3, t=2 with one Byzantine keyper.
 type exhCase struct {
-	ByzPos                          int
-	Commit, EvalA, EvalB, Acc, Apo  int
-	Timing                          int // 0 all in phase, 1 dealing late, 2 accusation late, 3 apology late
+	ByzPos                         int
+	Commit, EvalA, EvalB, Acc, Apo int
+	Timing                         int // 0 all in phase, 1 dealing late, 2 accusation late, 3 apology late
 }
 
 func (c exhCase) scenario(idx int) Scenario {
